@@ -18,6 +18,8 @@ Usage:
 """
 import asyncio
 import heapq
+import os
+import sys
 import time as _time
 
 QUANTUM = 1e-3
@@ -29,12 +31,18 @@ class VClock:
         self.t = 0.0
         self.waits = []  # one entry per asyncio.wait call: {"done":[names], "pending":[names], "rw": return_when}
         self.iterations = 0
-        self.max_iterations = 5_000_000  # guard against live-lock: raises instead of hanging
+        self.max_iterations = 1_000_000  # guard against live-lock: raises instead of hanging
+        self.max_seen = 0  # largest number of loop iterations any scenario needed so far (statistics)
+        if os.environ.get("VERIF_VLOOP_STATS"):
+            import atexit
+
+            atexit.register(lambda: print("vloop max iterations in one scenario:", max(self.max_seen, self.iterations), file=sys.stderr))
 
     def now(self):
         return self.t
 
     def reset(self):
+        self.max_seen = max(getattr(self, "max_seen", 0), self.iterations)
         self.t = 0.0
         self.waits.clear()
         self.iterations = 0
